@@ -447,6 +447,10 @@ def rule_M(run, prog):
                     and norm(st.targets[0].value) in ("self.data", "self._cofts")):
                 continue
             rhs = st.value
+            # an owning copy or a conversion to an array wraps the same values
+            while isinstance(rhs, ast.Call) and ((isinstance(rhs.func, ast.Attribute) and rhs.func.attr in ("copy",) and not rhs.args)
+                                                 or ((call_name(rhs) or "").split(".")[-1] in ("array", "asarray", "copy") and rhs.args)):
+                rhs = rhs.func.value if (isinstance(rhs.func, ast.Attribute) and rhs.func.attr == "copy" and not rhs.args) else rhs.args[0]
             base = rhs
             while isinstance(base, ast.Subscript):
                 base = base.value
